@@ -21,7 +21,22 @@ CAS = ["ca", "noca"]
 # X509_V_ERR_* that OpenSSL must report first for each kind when the CA is configured
 FIRST_ERR = {"wrongname": 62, "partial": 62, "expired": 10, "notyet": 9, "untrusted": 20, "selfsigned": 18, "chainexp": 10,
              "announced": 62}
-VERIFYING = ("valid", "fullwild", "chainok")      # kinds that verify when the CA is configured
+DOMAIN = "xmpp.example.com"
+DIGIT_DOMAIN = "4chat.example.org"          # a DNS domain that starts with a digit
+# dNSName in the certificate of each kind; GOOD_CHAIN = issued (directly or through a valid intermediate) by the CA, in date
+KIND_SAN = {"valid": DOMAIN, "wrongname": "xmpp.example.org", "partial": "xm*.example.com", "expired": DOMAIN, "notyet": DOMAIN,
+            "untrusted": DOMAIN, "selfsigned": DOMAIN, "fullwild": "*.example.com", "chainok": DOMAIN, "chainexp": DOMAIN,
+            "announced": "evil.example.net", "silent": DOMAIN,
+            "dvalid": DIGIT_DOMAIN, "dprefix": DIGIT_DOMAIN + ".example.net", "dsuffix": "x" + DIGIT_DOMAIN,
+            "dwild": "*.example.org", "dpartial": "4c*.example.org"}
+GOOD_CHAIN = ("valid", "wrongname", "partial", "fullwild", "chainok", "announced", "dvalid", "dprefix", "dsuffix", "dwild", "dpartial")
+
+
+def name_matches(san, domain):
+    """RFC 6125 as the property wants it: the exact name, or a wildcard that is one whole left-most label"""
+    if san == domain:
+        return True
+    return san.startswith("*.") and "." in domain and domain.split(".", 1)[1] == san[2:]
 KNOWN_NO_DEADLINE = "C08-tls-start-no-deadline"
 KNOWN_NO_DEADLINE_ENTRY = {
     "property": "C08", "id": KNOWN_NO_DEADLINE, "status": "known",
@@ -101,6 +116,19 @@ def extra_cells(thorough):
         "announced A starttls ca", "announced A starttls noca", "announced A legacy ca", "announced A legacy noca",
         "valid N starttls ca announce=evil.example.net", "valid N legacy ca announce=evil.example.net",
         "wrongname N starttls ca announce=xmpp.example.org", "wrongname R starttls+m ca announce=xmpp.example.org",
+        # a second configured domain, one that starts with a digit: the certificate has to name THAT domain
+        "dvalid N starttls ca domain=4chat.example.org", "dvalid N legacy ca domain=4chat.example.org",
+        "dvalid R starttls ca domain=4chat.example.org", "dvalid A legacy noca domain=4chat.example.org",
+        "dwild N starttls ca domain=4chat.example.org", "dwild R legacy ca domain=4chat.example.org",
+        "valid N starttls ca domain=4chat.example.org", "valid N legacy ca domain=4chat.example.org",
+        "valid R starttls ca domain=4chat.example.org", "valid R legacy ca domain=4chat.example.org",
+        "valid A starttls ca domain=4chat.example.org",
+        "dprefix N starttls ca domain=4chat.example.org", "dprefix N legacy ca domain=4chat.example.org",
+        "dprefix R starttls ca domain=4chat.example.org", "dprefix R legacy ca domain=4chat.example.org",
+        "dsuffix N starttls ca domain=4chat.example.org", "dsuffix N legacy ca domain=4chat.example.org",
+        "dsuffix R starttls ca domain=4chat.example.org", "dsuffix R legacy ca domain=4chat.example.org",
+        "dpartial N starttls ca domain=4chat.example.org", "dpartial R legacy ca domain=4chat.example.org",
+        "dvalid N starttls ca", "dwild N legacy ca",       # and the digit-domain certificates are wrong for the first domain
         # XMPP_CONN_FLAG_MANDATORY_TLS: the failure reactions must not depend on it
         "wrongname N starttls+m ca", "valid N starttls+m ca", "expired R starttls+m ca", "untrusted N legacy+m ca",
         "valid N starttls+m badca", "valid A legacy+m badca",
@@ -113,6 +141,9 @@ def extra_cells(thorough):
         ex += ["%s %s %s %s" % (k, m, e, c) for k in ("chainok", "chainexp")
                for m in ("T", "N", "A", "R", "P0", "P1", "P2", "Q0", "Q1", "Q2", "S10", "S01") for e in ENTRIES for c in CAS]
         ex += ["%s %s %s+m ca" % (k, m, e) for k in KINDS for m in ("N", "R", "A") for e in ENTRIES]
+        ex += ["%s %s %s %s domain=4chat.example.org" % (k, m, e, c)
+               for k in ("dvalid", "dprefix", "dsuffix", "dwild", "dpartial", "valid", "wrongname", "fullwild", "expired", "chainok")
+               for m in MODES + ["P0", "S10"] for e in ENTRIES for c in CAS]
     seen, out = set(), []
     for c in ex:
         if c not in seen:
@@ -141,9 +172,16 @@ def parse(line):
 
 def case_fields(case):
     p = case.split()
-    opt = p[4] if len(p) > 4 else ""
-    return {"kind": p[0], "mode": p[1], "entry": p[2], "ca": p[3], "ms": int(opt) if opt.isdigit() else 0,
-            "announce": opt[9:] if opt.startswith("announce=") else ("evil.example.net" if p[0] == "announced" else None)}
+    f = {"kind": p[0], "mode": p[1], "entry": p[2], "ca": p[3], "ms": 0, "domain": DOMAIN,
+         "announce": "evil.example.net" if p[0] == "announced" else None}
+    for opt in p[4:]:
+        if opt.isdigit():
+            f["ms"] = int(opt)
+        elif opt.startswith("announce="):
+            f["announce"] = opt[9:]
+        elif opt.startswith("domain="):
+            f["domain"] = opt[7:]
+    return f
 
 
 def model_line(case, obs):
@@ -219,7 +257,9 @@ def oracle(case, obs):
     silent = kind == "silent"
     mandatory = entry.endswith("+m")
     entry = entry.split("+")[0]
-    verifies = kind in VERIFYING and ca in ("ca", "cadir") and not silent
+    # the name the certificate must carry is the domain of the configured JID
+    verifies = (kind in GOOD_CHAIN and name_matches(KIND_SAN[kind], f["domain"]) and ca in ("ca", "cadir") and not silent)
+    VERIFYING = tuple(k for k in GOOD_CHAIN if name_matches(KIND_SAN[k], f["domain"]))
     has_cb = mode[0] in "ARSPQ"
     trust = mode == "T"
     srv = dict(x.split(":", 1) if ":" in x else (x[:2], x[2:]) for x in obs["srv"].split("|"))
@@ -269,10 +309,13 @@ def oracle(case, obs):
             bad.append("certificate kind '%s' was not flagged by OpenSSL at all (v=%s)" % (kind, obs["v"]))
         if not verifies and not failing and kind in VERIFYING:
             bad.append("certificate verified although no CA is configured")
-        if failing and ca in ("ca", "cadir") and kind in FIRST_ERR:
+        first_err = FIRST_ERR.get(kind, 62 if kind in GOOD_CHAIN and kind not in VERIFYING else None)
+        if f["domain"] != DOMAIN:
+            first_err = (None if kind in VERIFYING else 62) if kind in GOOD_CHAIN else None
+        if failing and ca in ("ca", "cadir") and first_err is not None:
             first = [x for x, y in zip(es, vs) if y[0] != "1"][0]
-            if int(first.split(":")[1]) != FIRST_ERR[kind]:
-                func.append("certificate kind '%s' failed with X509 error %s, expected %d" % (kind, first, FIRST_ERR[kind]))
+            if int(first.split(":")[1]) != first_err:
+                func.append("certificate kind '%s' failed with X509 error %s, expected %d" % (kind, first, first_err))
     # --- callback bookkeeping
     if not has_cb or trust:
         if ncb != 0:
